@@ -80,6 +80,8 @@ pub(crate) fn parse_offset(chars: &mut Peekable<Chars<'_>>) -> TemporalResult<Op
     let minutes = match digit_peek {
         Some(true) => parse_digit_pair(chars)?,
         Some(false) => return Err(non_ascii_digit()),
+        // A separator must be followed by the minutes.
+        None if sep => return Err(abrupt_end()),
         None => 0,
     };
 
